@@ -81,7 +81,7 @@ func init() {
 
 // stopKinds is the stop-cause alphabet of C05 / C06.
 var stopKinds = []string{"none", "cancel_out", "cancel_gate", "cancel_in", "cancel_log", "handler_err_cancel", "deadline", "eof", "err", "fin", "rst", "short", "outofseq",
-	"handler_err", "mapper_err", "mapper_cols", "unsupported", "invalid", "undecodable", "refuse", "err_handshake", "err_query", "cancel_handshake", "cancel_query", "cancel_dial"}
+	"handler_err", "mapper_err", "mapper_cols", "unsupported", "invalid", "undecodable", "refuse", "err_handshake", "err_query", "cancel_handshake", "cancel_query", "dump_unsendable", "cancel_dial"}
 
 func stopHistOpt() gen.HistOpt {
 	o := gen.DefaultHistOpt(limits(), false)
@@ -108,6 +108,27 @@ func drawStop(rt *rapid.T, o gen.HistOpt, kinds []string) *StopCase {
 		}
 		c.H = seqHistory(seq, rapid.IntRange(0, 15).Draw(rt, "long_variant"))
 	}
+	deep := rapid.IntRange(0, 19).Draw(rt, "deep_backlog") == 0
+	if deep {
+		// a backlog of thousands of packets behind a handler that is held in its first call, and a stop
+		// that does not drain it: whatever read-ahead the library has is full at that moment
+		seq := make([]int, rapid.SampledFrom([]int{400, 700, 1500}).Draw(rt, "deep_len"))
+		for i := range seq {
+			seq[i] = rapid.SampledFrom([]int{0, 1, 3, 4}).Draw(rt, "deep_sym")
+		}
+		c.H = seqHistory(seq, rapid.IntRange(0, 15).Draw(rt, "deep_variant"))
+		var dk []string
+		for _, k := range []string{"handler_err", "cancel_gate", "cancel_in", "handler_err_cancel"} {
+			for _, have := range kinds {
+				if have == k {
+					dk = append(dk, k)
+				}
+			}
+		}
+		if len(dk) > 0 {
+			kinds = dk
+		}
+	}
 	l, err := c.H.Lay()
 	if err != nil {
 		rt.Skip(err.Error())
@@ -117,7 +138,7 @@ func drawStop(rt *rapid.T, o gen.HistOpt, kinds []string) *StopCase {
 	ntx := len(l.Expected(hist.Pos{File: c.H.FirstFile, Off: c.H.Base}, 0))
 	k := rapid.SampledFrom(kinds).Draw(rt, "stop_kind")
 	switch k {
-	case "none", "cancel_gate", "refuse", "err_handshake", "err_query", "cancel_handshake", "cancel_dial":
+	case "none", "cancel_gate", "refuse", "err_handshake", "err_query", "cancel_handshake", "cancel_dial", "dump_unsendable":
 		c.Fault = Fault{Kind: k}
 	case "deadline":
 		c.Fault = Fault{Kind: k, At: rapid.IntRange(0, 20).Draw(rt, "deadline_ticks")}
@@ -150,12 +171,25 @@ func drawStop(rt *rapid.T, o gen.HistOpt, kinds []string) *StopCase {
 			c.GateCall = c.Fault.At
 		}
 	}
+	if deep {
+		c.Pacing, c.Handler, c.GateCall = PaceFarAhead, HandlerGated, 1
+		if c.Fault.Kind != "cancel_gate" {
+			c.Fault.At = 1
+		}
+	}
 	if c.Handler == HandlerSlow {
 		c.SlowN = rapid.IntRange(1, 12).Draw(rt, "slow_n")
 	}
 	c.PrevOK = rapid.IntRange(0, 4).Draw(rt, "prev_ok") == 0
 	if c.PrevOK {
 		c.PrevCancel = rapid.Bool().Draw(rt, "prev_cancel")
+	}
+	switch k {
+	case "cancel_out", "cancel_in", "cancel_gate", "cancel_log", "cancel_busy", "handler_err", "handler_err_cancel", "mapper_err", "mapper_cols", "unsupported", "invalid", "undecodable":
+		c.QuietAfter = rapid.Bool().Draw(rt, "quiet_after")
+	}
+	if rapid.IntRange(0, 4).Draw(rt, "late_deadline") == 0 {
+		c.LateDeadlineMs = rapid.IntRange(15, 40).Draw(rt, "late_deadline_ms")
 	}
 	if rapid.IntRange(0, 2).Draw(rt, "perturb") == 0 {
 		c.PerturbWho = rapid.IntRange(1, 3).Draw(rt, "perturb_who")
@@ -181,6 +215,19 @@ func stopClasses(c *StopCase, o *StopObs) []string {
 	}
 	if c.PerturbWho != 0 {
 		cls = append(cls, fmt.Sprintf("perturb/who=%d/level=%d", c.PerturbWho, c.PerturbLevel))
+	}
+	if c.QuietAfter {
+		cls = append(cls, "master-silent-after-the-cause")
+	}
+	if len(c.H.Units) >= 400 && c.Handler == HandlerGated && c.GateCall == 1 {
+		cls = append(cls, "deep-backlog-behind-gated-first-call")
+	}
+	if c.LateDeadlineMs > 0 {
+		if o.CallerCancelled {
+			cls = append(cls, "deadline-expired-during-the-stream")
+		} else {
+			cls = append(cls, "deadline-expired-between-return-and-Error()")
+		}
 	}
 	cls = append(cls, fmt.Sprintf("cause/%s/reader=%s/handler=%d", c.Fault.Kind, o.ReaderAtStop, c.Handler))
 	return cls
